@@ -52,7 +52,10 @@ class Sampling(Monitor):
             steps = k - 1 if zero else k
             nominal = Fraction(interval) * steps
             actual = Fraction(now.quotient) + Fraction(now.remainder)
-            if abs(actual - nominal) > ROUNDING * (k + 2):
+            # one rounding per step: the sum remainder + interval (below interval + 1) is rounded once, by at most
+            # (interval + 1) * 2**-53; twice that is allowed
+            per_step = ROUNDING * max(Fraction(1), Fraction(interval) + 1)
+            if abs(actual - nominal) > per_step * (k + 2):
                 ctx.violation("C17", "sample_time_off_nominal",
                               {"k": k, "interval": interval, "first_zero": zero, "time": (now.quotient, now.remainder),
                                "error": float(actual - nominal)})
@@ -134,7 +137,8 @@ class Sampling(Monitor):
             base = math.floor(end / step)
             exact = base if step * base < end else base - 1     # multiples n >= 1 with n * interval < end
             exact = max(exact, 0) + (1 if (zero and end > 0) else 0)
-            near_tie = any(n >= (0 if zero else 1) and abs(step * n - end) <= ROUNDING * (n + 3)
+            near_tie = any(n >= (0 if zero else 1)
+                           and abs(step * n - end) <= ROUNDING * max(Fraction(1), step + 1) * (n + 3)
                            for n in (base, base + 1))
             if near_tie:
                 ctx.probes["c17_sample_coincides_with_end"] += 1
